@@ -243,3 +243,6 @@ func TourC11() []TourCase {
 		}},
 	}
 }
+
+// Case returns the history built so far (used by C17's directed concurrent programs).
+func (b *B) Case() *Case { return b.c }
